@@ -46,6 +46,7 @@ func checkC17(c *Ctx, r *Report) {
 	freshHash(c, r, "C17.R5.fresh-hash")
 	hashFoldASCII(c, r, "C17.R1.hash-fold")
 	bigEndian16(c, r, "C17.R6.be16", []string{"DNSKEY.publicKeyRSA"}, "a key whose exponent length is written in the three-octet form of RFC 3110 is decoded with the wrong exponent length and refused")
+	nowOnlyForZero(c, r, "C17.R7.now-only-for-zero")
 }
 
 // c17R6: the RSA public-key decoder accepts every modulus size the generator can produce.
